@@ -334,6 +334,7 @@ LEVEL_TEXT = (
     "(ordered, with repetition, incl. the same point with permuted dict keys and the value-swapped collision partner) run through the public Runner API with two "
     "get_result() calls, and (H2) every sequence up to depth 3 (quick) / 4 (thorough) of cache-level operations on one live Runner. After every transition the "
     "returned operator is compared bit-for-bit with the isolated request and the object served by the cache must be the one requested."
+    " Two option families (polarised positron beam on iron with shifted matching scales; FFN0 with an antineutrino beam) are explored in H1 and H3."
 )
 LEVEL_NOTE = (
     "Trusted: sha256 over the float64 bytes of all order keys as equality; the isolated reference is computed by the same code on a fresh Runner "
